@@ -615,6 +615,30 @@ void parallel_for(
   }
 
   if (isStatic) {
+    if (hasTail && !options.wait) {
+      // The scheduled chunks may still be running when this function returns, so the caller must
+      // not run the tail itself: it would share states[0] with chunk 0 and add one more concurrent
+      // invocation than maxThreads allows.  The task that owns states[0] (chunk 0) runs the tail
+      // right after its chunk instead.
+      const IntegerT parStart = parRange.start;
+      const IntegerT fullEnd = range.end;
+      detail::parallel_for_staticImpl(
+          taskSet,
+          states,
+          defaultState,
+          parRange,
+          [f, parStart, trimmedEnd, fullEnd](auto& state, IntegerT b, IntegerT e) {
+            f(state, b, e);
+            if (b == parStart) {
+              f(state, trimmedEnd, fullEnd);
+            }
+          },
+          static_cast<ssize_t>(maxThreads),
+          options.wait,
+          options.reuseExistingState,
+          granularity);
+      return;
+    }
     detail::parallel_for_staticImpl(
         taskSet,
         states,
